@@ -32,6 +32,7 @@ def check(repo: Repo, rep, tier):
     scan_total(repo, rep)
     suffix_shape(repo, rep)
     storage_no_cache(repo, rep)
+    persist_unique(repo, rep)
 
 
 def content_addr(repo: Repo, rep):
@@ -330,6 +331,52 @@ def persist_remove(repo: Repo, rep):
         rep.ok("R-REMOVE-GATE", us, us.node, "used_externals() scans every file of state().files_with_snapshots")
     else:
         rep.violation("R-REMOVE-GATE", us, us.node, "used_externals() does not scan all of state().files_with_snapshots", construct="used-def")
+
+
+def persist_unique(repo: Repo, rep):
+    rep.rule(
+        "R-PERSIST-UNIQUE",
+        "a storage operation addressed by a (possibly shortened) name changes exactly the one file the name denotes: in every method of DiscStorage that "
+        "takes a name, the object that is renamed / unlinked comes from the unique lookup (the method that raises HashError unless exactly one file "
+        "matches), never from iterating over a glob of the name.  With `hash-length` shortened, one pattern matches several files: persisting all of them "
+        "makes the `-new` data of an unapproved change permanent, removing all of them deletes data that is still referenced",
+    )
+    c = repo.cls("DiscStorage", "_external.py")
+    uniq = [m for m in c.methods.values() if any(isinstance(x, ast.Raise) for x in body_nodes(m.node)) and any(isinstance(x, ast.Compare) and "len(" in norm(x) for x in body_nodes(m.node)) and any(isinstance(x, ast.Call) and norm(x.func).endswith(".glob") for x in body_nodes(m.node))]
+    if not uniq:
+        rep.violation("R-PERSIST-UNIQUE", c.methods.get("persist") or list(c.methods.values())[0], c.node, "DiscStorage has no lookup that insists on exactly one match", construct="no-unique-lookup")
+        return
+    uname = {u.name for u in uniq}
+    n = 0
+    for m in c.methods.values():
+        if len(m.params) < 2 or m.name in uname:
+            continue
+        cfg = cfg_of(m)
+        for nd in cfg.live:
+            for call in node_calls(nd):
+                if not (isinstance(call.func, ast.Attribute) and call.func.attr in ("rename", "replace", "unlink", "rmdir")):
+                    continue
+                n += 1
+                recv = call.func.value
+                ok = False
+                if isinstance(recv, ast.Call) and isinstance(recv.func, ast.Attribute) and recv.func.attr in uname:
+                    ok = True
+                elif isinstance(recv, ast.Name):
+                    ds = reaching_defs(cfg, nd, recv.id)
+                    vals = [def_value(d, recv.id) for d in ds]
+                    ok = bool(vals) and all(v is not None and isinstance(v, ast.Call) and isinstance(v.func, ast.Attribute) and v.func.attr in uname and not d.kind == "for" for v, d in zip(vals, ds))
+                if ok:
+                    rep.ok("R-PERSIST-UNIQUE", m, call, f"`{short(call, 40)}` acts on the unique match of the name")
+                else:
+                    rep.violation(
+                        "R-PERSIST-UNIQUE",
+                        m,
+                        call,
+                        f"DiscStorage.{m.name} applies `{short(call, 40)}` to a file that does not come from the unique lookup ({', '.join(sorted(uname))}): with a shortened hash the pattern matches several files and all of them are "
+                        f"{'made permanent - including the -new data of a change nobody approved' if call.func.attr in ('rename', 'replace') else 'deleted - including data that is still referenced'}",
+                        construct=f"{m.name}:{call.func.attr}",
+                    )
+    rep.floor("R-PERSIST-UNIQUE", "rename / unlink sites in name-addressed storage methods", n, 2)
 
 
 def lookup(repo: Repo, rep):
